@@ -230,6 +230,9 @@ pub mod probes {
         }
         Ok(())
     }
+    pub fn probe_thread_name(branch: u8, step: u8) -> Option<String> {
+        PROBES.lock().unwrap_or_else(|e| e.into_inner()).iter().find(|x| x.branch == branch && x.step == step).and_then(|x| x.name.clone())
+    }
     static RELEASE: std::sync::atomic::AtomicBool = std::sync::atomic::AtomicBool::new(false);
     pub fn hold_reset() { RELEASE.store(false, Ordering::SeqCst); }
     pub fn release() { RELEASE.store(true, Ordering::SeqCst); }
